@@ -20,6 +20,7 @@ from io import SEEK_END
 from io import SEEK_SET
 from io import UnsupportedOperation
 import random
+import struct
 import sys
 from typing import List, cast
 
@@ -71,7 +72,7 @@ class AkaiImageParserOrig(Image):
                     _elem_parent=self,
                     _elem_routines=self._routines
                 )  
-            except (InvalidPartition, ConstructError) as e:
+            except (InvalidPartition, ConstructError, struct.error) as e:  # as in the tree after the struct.error fix
                 break
             partitions.append(partition)
             partition_cnt += 1
